@@ -128,6 +128,10 @@ type srcHandle interface {
 }
 type srcOf[S any] struct{}
 
+// a workflow input Outer{N: reqMark + r} tells the source lambdas to produce the values of request r (used by the
+// concurrent requests, which cannot share the variable *cur; generated ints are far below)
+const reqMark = 1 << 40
+
 func (srcOf[S]) lambda(reqs [][]reflect.Value, cur *int) *compose.Lambda {
 	arrs := make([][]S, len(reqs))
 	single := true
@@ -140,12 +144,19 @@ func (srcOf[S]) lambda(reqs [][]reflect.Value, cur *int) *compose.Lambda {
 			single = false
 		}
 	}
+	// which request is being served: *cur, or — for concurrent requests with different data — what the workflow's input says
+	pick := func(in Outer) int {
+		if k := in.N - reqMark; k >= 0 && k < len(arrs) {
+			return k
+		}
+		return *cur
+	}
 	if single {
-		return compose.InvokableLambda(func(ctx context.Context, in Outer) (S, error) { return arrs[*cur][0], nil })
+		return compose.InvokableLambda(func(ctx context.Context, in Outer) (S, error) { return arrs[pick(in)][0], nil })
 	}
 	return compose.StreamableLambda(func(ctx context.Context, in Outer) (*schema.StreamReader[S], error) {
-		cp := make([]S, len(arrs[*cur]))
-		copy(cp, arrs[*cur])
+		cp := make([]S, len(arrs[pick(in)]))
+		copy(cp, arrs[pick(in)])
 		return schema.StreamReaderFromArray(cp), nil
 	})
 }
@@ -690,24 +701,50 @@ func execute(c *Case, rep int) *outcome {
 			}
 			res := make([]one, nb)
 			in := startVal(bsB)
-			_, hung := withWatchdog(func() {
-				start := make(chan struct{})
-				var wg sync.WaitGroup
-				for k := 0; k < nb; k++ {
-					wg.Add(1)
-					go func(k int) {
-						defer wg.Done()
-						<-start
-						res[k].p = lib.Recover(func() { res[k].rv, res[k].err = fnsB.invoke(in) })
-					}(k)
+			// with a second request and no declaration fed by START the odd calls serve the SECOND request's values:
+			// concurrent requests with different data on one runnable
+			mixed := c.second() && (o.Invoke2 == "ok" || o.Invoke2 == "err")
+			for i := range c.Decls {
+				mixed = mixed && !c.Decls[i].FromStart
+			}
+			inOf := func(k int) Outer {
+				if mixed {
+					return Outer{N: reqMark + k%2}
 				}
-				close(start)
-				wg.Wait()
-			})
+				return in
+			}
+			round := func() bool {
+				_, hung := withWatchdog(func() {
+					start := make(chan struct{})
+					var wg sync.WaitGroup
+					for k := 0; k < nb; k++ {
+						wg.Add(1)
+						go func(k int) {
+							defer wg.Done()
+							<-start
+							res[k].p = lib.Recover(func() { res[k].rv, res[k].err = fnsB.invoke(inOf(k)) })
+						}(k)
+					}
+					close(start)
+					wg.Wait()
+				})
+				return hung
+			}
+			hung := round()
 			if !hung {
-				want := o.Invoke
+				want0 := o.Invoke
 				if o.InvVal != nil {
-					want += "=" + o.InvVal.String()
+					want0 += "=" + o.InvVal.String()
+				}
+				want1 := o.Invoke2
+				if o.InvVal2 != nil {
+					want1 += "=" + o.InvVal2.String()
+				}
+				wantOf := func(k int) string {
+					if mixed && k%2 == 1 {
+						return want1
+					}
+					return want0
 				}
 				show := func(r one) string {
 					switch {
@@ -718,19 +755,78 @@ func execute(c *Case, rep int) *outcome {
 					}
 					return "ok=" + render(r.rv).String()
 				}
-				for k := range res {
-					if got := show(res[k]); got != want && o.Burst == "" {
-						o.Burst = fmt.Sprintf("call %d of %d concurrent first requests gave %s, the sequential request %s", k, nb, got, want)
+				// (with different data in flight the interleaving matters: a few more rounds on the same runnable)
+				rounds := 1
+				if mixed {
+					rounds = 30
+				}
+				for r := 0; r < rounds && o.Burst == "" && !hung; r++ {
+					if r > 0 {
+						hung = round()
+					}
+					for k := range res {
+						if got := show(res[k]); got != wantOf(k) && o.Burst == "" && !hung {
+							o.Burst = fmt.Sprintf("call %d of %d concurrent requests (round %d, different data: %v) gave %s, the sequential request %s", k, nb, r, mixed, got, wantOf(k))
+						}
 					}
 				}
 				if o.Burst == "" && o.Invoke == "ok" {
 					scribbleResult(res[0].rv, sharedOf(bsB))
 					for k := 1; k < nb; k++ {
-						if got := show(res[k]); got != want {
-							o.Burst = fmt.Sprintf("after the consumer of call 0 modified its input, the input handed over by the concurrent call %d reads %s (was %s)", k, got, want)
+						if got := show(res[k]); got != wantOf(k) {
+							o.Burst = fmt.Sprintf("after the consumer of call 0 modified its input, the input handed over by the concurrent call %d reads %s (was %s)", k, got, wantOf(k))
 							break
 						}
 					}
+				}
+				// the same in streaming execution (the stream form of an edge handler is built once per compiled edge and
+				// serves every request): what each of the two requests streams when it is alone on the runnable, then
+				// 4 concurrent Streams, two of each
+				if mixed && o.Burst == "" && !hung {
+					showS := func(in Outer) string {
+						var rvs []reflect.Value
+						var err error
+						if p := lib.Recover(func() { rvs, err = fnsB.stream(in) }); p != nil {
+							return "panic " + firstLine(fmt.Sprint(p))
+						}
+						if err != nil {
+							return "err"
+						}
+						var vs []*V
+						for _, v := range rvs {
+							vs = append(vs, render(v))
+						}
+						out := "ok"
+						for _, v := range sortVs(vs) {
+							out += ";" + v.String()
+						}
+						return out
+					}
+					var seq [2]string
+					got := make([]string, nb)
+					_, hungS := withWatchdog(func() {
+						seq[0], seq[1] = showS(inOf(0)), showS(inOf(1))
+						for r := 0; r < 30 && o.Burst == ""; r++ {
+							start := make(chan struct{})
+							var wg sync.WaitGroup
+							for k := 0; k < nb; k++ {
+								wg.Add(1)
+								go func(k int) {
+									defer wg.Done()
+									<-start
+									got[k] = showS(inOf(k))
+								}(k)
+							}
+							close(start)
+							wg.Wait()
+							for k := range got {
+								if got[k] != seq[k%2] && o.Burst == "" {
+									o.Burst = fmt.Sprintf("call %d of %d concurrent Streams with different data (round %d) gave %s, alone on the runnable %s", k, nb, r, got[k], seq[k%2])
+								}
+							}
+						}
+					})
+					_ = hungS
 				}
 				checkSrc(bsB, "concurrent invoke")
 			}
